@@ -143,7 +143,7 @@ def selfref_def(did):
 
 def iter_module(E, depth, steps):
     n_en = sum(1 for v in E["variants"] if not v["dis"])
-    src = SG.HEADER + D.print_enum(E, ["EnumIter"]) + "\n" + probe_nocapture(E) + send_sync_check(E)
+    src = SG.HEADER + D.in_user_scope(D.print_enum(E, ["EnumIter"]), E, exports=("Iter",)) + "\n" + probe_nocapture(E) + send_sync_check(E)
     if E["id"] % 2 == 0:
         src += D.BLANKET_TRAIT + D.decoys(E, ["EnumIter"])
     src += E.get("extra_items", "")
@@ -157,7 +157,7 @@ def iter_module(E, depth, steps):
 
 def list_module(E):
     """C04: the whole list forwards/backwards, payloads, COUNT"""
-    src = SG.HEADER + D.print_enum(E, ["EnumIter", "EnumCount"]) + "\n" + probe_nocapture(E)
+    src = SG.HEADER + D.in_user_scope(D.print_enum(E, ["EnumIter", "EnumCount"]), E, exports=("Iter",)) + "\n" + probe_nocapture(E)
     if E["id"] % 2 == 0:
         src += D.BLANKET_TRAIT + D.decoys(E, ["EnumIter", "EnumCount"])
     src += E.get("extra_items", "")
@@ -180,7 +180,7 @@ def list_module(E):
 def lists_module(E, array=True):
     """C08: COUNT, VariantNames, VariantArray and iter on a field-less enum (array=False: an enum with payloads, without VariantArray)"""
     ds = ["EnumIter", "EnumCount", "VariantNames"] + (["VariantArray"] if array else [])
-    src = SG.HEADER + D.print_enum(E, ds) + "\n" + probe_nocapture(E)
+    src = SG.HEADER + D.in_user_scope(D.print_enum(E, ds), E, exports=("Iter",)) + "\n" + probe_nocapture(E)
     if E["id"] % 2 == 0:
         src += D.BLANKET_TRAIT + D.decoys(E, ["EnumIter", "EnumCount", "VariantNames"])
     it = "<%s as strum::IntoEnumIterator>::iter()" % D.inst(E)
@@ -218,7 +218,7 @@ def table_module(E, depth, steps):
     n = E["name"]
     en = [i + 1 for i, v in enumerate(E["variants"]) if not v["dis"]]
     dis = [i + 1 for i, v in enumerate(E["variants"]) if v["dis"]]
-    src = SG.HEADER + D.print_enum(E, ["EnumTable"], std_derives=("Debug", "Clone", "Copy", "PartialEq")) + "\n" + D.helper_impl(E) + "\n"
+    src = SG.HEADER + D.in_user_scope(D.print_enum(E, ["EnumTable"], std_derives=("Debug", "Clone", "Copy", "PartialEq")), E, exports=("Table",)) + "\n" + D.helper_impl(E) + "\n"
     src += "fn key(i: usize) -> %s { match i { %s _ => unreachable!() } }\n" % (
         n, " ".join("%d => %s::%s," % (i + 1, n, D.vid(v)) for i, v in enumerate(E["variants"])))
     src += "fn pos(i: usize) -> usize { match i { %s _ => unreachable!() } }\n" % " ".join("%d => %d," % (k, p) for p, k in enumerate(en))
